@@ -389,8 +389,84 @@ Theorem C20_sample_times_meets_spec : forall rate durs,
 Proof. exact sample_times_meets_spec. Qed.
 Print Assumptions C20_sample_times_meets_spec.
 
+(* ---- round 6: THE RANGE ENDS AND THE CODE RANGE IN BINARY64 (clause "maps the range ends to the lowest and highest code";
+        until now proved for exact rationals only and tested on the decimal stream).  x = RN (v - off) is the binary64 difference
+        the code computes first; its range test is |x| > amp.  Sane amplitudes (2^-500 .. 2^500), resolution 1..16:
+        x = amp gets the highest code, x = -amp the lowest; every voltage the range test accepts gets a code in 0 .. 2^res - 1;
+        a voltage that is in range as an exact number is accepted when the amplitude is a binary64 number. ---- *)
+Require Import QV.C20.ProofsFloat3.
+Theorem C20_float_code_range_ends : forall (amp : R) res, (bpow radix2 (-500) <= amp)%R -> (amp <= bpow radix2 500)%R ->
+  (1 <= res <= 16)%Z -> forall off v : R,
+  (RN (v - off) = amp -> fcode amp off res v = (2 ^ res - 1)%Z) /\ (RN (v - off) = (- amp)%R -> fcode amp off res v = 0%Z).
+Proof. exact fcode_range_ends. Qed.
+Print Assumptions C20_float_code_range_ends.
+
+Theorem C20_float_code_in_code_range : forall (amp : R) res, (bpow radix2 (-500) <= amp)%R -> (amp <= bpow radix2 500)%R ->
+  (1 <= res <= 16)%Z -> forall off v : R,
+  (Rabs (RN (v - off)) <= amp)%R -> (0 <= fcode amp off res v <= 2 ^ res - 1)%Z.
+Proof. exact fcode_in_code_range. Qed.
+Print Assumptions C20_float_code_in_code_range.
+
+Theorem C20_float_in_range_accepted : forall amp off v : R,
+  generic_format radix2 fexp amp -> (Rabs (v - off) <= amp)%R -> (Rabs (RN (v - off)) <= amp)%R.
+Proof. exact in_range_accepted. Qed.
+Print Assumptions C20_float_in_range_accepted.
+
+(* The executable binary64 model (Model.code64 / out_of_range64 / volt_numpy64 / volt_loop64 / volt_public64: every operation
+   rounded with Model.b64) that check_corr compares EXACTLY with the three implementations on the decimal stream (CVoltTol) IS
+   this float computation, its two variants are equal, and whenever it returns codes: they are the float codes, lie in the
+   code range (so the uint16 store changes nothing), are monotone, and the range ends get the extreme codes. *)
+Theorem C20_code64_is_float_code : forall (amp off v : Q) res, (bpow radix2 (-500) <= Q2R amp)%R ->
+  code64 amp off res v = fcode (Q2R amp) (Q2R off) res (Q2R v).
+Proof. exact code64_is_fcode. Qed.
+Print Assumptions C20_code64_is_float_code.
+
+Theorem C20_range_test64_is_float_test : forall amp off v : Q,
+  out_of_range64 amp off v = false <-> (Rabs (RN (Q2R v - Q2R off)) <= Q2R amp)%R.
+Proof. exact out_of_range64_spec. Qed.
+Print Assumptions C20_range_test64_is_float_test.
+
+Theorem C20_volt64_variants_equal : forall amp off res vs, volt_loop64 amp off res vs = volt_numpy64 amp off res vs.
+Proof. exact volt64_variants. Qed.
+Print Assumptions C20_volt64_variants_equal.
+
+Theorem C20_volt64_accepts : forall (amp off : Q) res vs cs,
+  (bpow radix2 (-500) <= Q2R amp <= bpow radix2 500)%R -> (1 <= res <= 16)%Z ->
+  volt_public64 amp off res vs = ORet cs ->
+  volt_loop64 amp off res vs = ORet cs
+  /\ cs = map (code64 amp off res) vs
+  /\ (forall v, In v vs -> (0 <= code64 amp off res v <= 2 ^ res - 1)%Z
+                           /\ ((b64 (v - off) == amp)%Q -> code64 amp off res v = (2 ^ res - 1)%Z)
+                           /\ ((b64 (v - off) == - amp)%Q -> code64 amp off res v = 0%Z))
+  /\ (forall v1 v2, (v1 <= v2)%Q -> (code64 amp off res v1 <= code64 amp off res v2)%Z).
+Proof. exact volt64_accepts. Qed.
+Print Assumptions C20_volt64_accepts.
+
+(* ---- round 6: THE MODELS PASS THE EXECUTABLE CHECKERS that check_spec applies to the implementation (until now this held on
+        every generated case only).  spec_shrink: besides C20_shrink's clauses, "fails EXACTLY when a window would lose all of its
+        samples" (stated on the original windows), "no begin moves further than needed", "first window untouched", "the flag is
+        raised exactly when something changed" — every list of integer windows, no assumption.  spec_volt (exact stream): resolution
+        guard, rejection exactly of out-of-range lists, every code a nearest code with ties to even, range ends, monotone.
+        spec_tw: the result is an arrangement of the correctly converted windows with non-decreasing time begins (the checker's
+        greedy matching succeeds), every list of windows and every rate. ---- *)
+Require Import QV.C20.ProofsShrink2 QV.C20.ProofsNum2 QV.C20.ProofsWin2.
+Theorem C20_shrink_model_passes_checker : forall ws,
+  spec_shrink ws (shrink_loop ws) = true /\ spec_shrink ws (shrink_numpy ws) = true.
+Proof. exact (fun ws => conj (shrink_loop_passes_checker ws) (shrink_numpy_passes_checker ws)). Qed.
+Print Assumptions C20_shrink_model_passes_checker.
+
+Theorem C20_volt_model_passes_checker : forall (amp off : Q) res vs, (0 < amp)%Q ->
+  spec_volt amp off res vs (volt_public amp off res vs) = true.
+Proof. exact volt_public_passes_checker. Qed.
+Print Assumptions C20_volt_model_passes_checker.
+
+Theorem C20_windows_model_passes_checker : forall sr ws,
+  spec_tw sr ws (tw_numpy sr ws) = true /\ spec_tw sr ws (tw_loop sr ws) = true.
+Proof. exact (fun sr ws => conj (tw_numpy_passes_checker sr ws) (tw_loop_passes_checker sr ws)). Qed.
+Print Assumptions C20_windows_model_passes_checker.
+
 (* ---- round 5: non-vacuity.  ProofsWitness.v holds, for every theorem above that has hypotheses, a concrete non-trivial input
         satisfying all of them (code_nonvacuous, in_range_nonvacuous, shrink_nonvacuous, avg_hyps_nonvacuous,
         sample_times_nonvacuous, window_float_nonvacuous, window_exact_nonvacuous, store16_nonvacuous, float_hyps_nonvacuous,
-        float_no_halfway_nonvacuous, grid_edge_hyps_nonvacuous); required here so that it is re-checked with every build ---- *)
+        float_no_halfway_nonvacuous, grid_edge_hyps_nonvacuous, r6: volt64_nonvacuous, checkers_nonvacuous); required here so that it is re-checked with every build ---- *)
 Require QV.C20.ProofsWitness.
